@@ -153,11 +153,18 @@ Definition mux_config (c : cfg) : list tag :=
   | None => []
   | Some v => v :: (if c_aac c then [aseq_tag c] else [])
   end.
+(* the video parameter sets the sequence header needs are known (otherwise every frame is dropped
+   and nothing is written, not even the metadata tag) *)
+Definition sets_known (c : cfg) : bool :=
+  if c_hevc c then (0 <? zlen (c_vps c)) && (0 <? zlen (c_sps c)) && (0 <? zlen (c_pps c))
+  else (4 <=? zlen (c_sps c)) && (0 <? zlen (c_pps c)).
 Definition mux (c : cfg) (fs : list frame) : list tag :=
   match fs with
   | [] => []
-  | _ => mux_config c ++
-         match vseq_tag c with None => [] | Some _ => mux_frames c fs end
+  | _ => if sets_known c then
+           mux_config c ++
+           match vseq_tag c with None => [] | Some _ => mux_frames c fs end
+         else []
   end.
 
 (* ------------------------------------------------------------------ writer *)
@@ -520,6 +527,7 @@ Definition tags_ok (c : cfg) (fs : list frame) (k : nat) (ps : list ptag) : bool
   match fs with
   | [] => match ps with [] => true | _ => false end
   | _ =>
+      if negb (sets_known c) then match ps with [] => true | _ => false end else
       match ps with
       | m :: ps1 =>
           meta_ok c m &&
@@ -572,6 +580,7 @@ Definition cfg_wf (c : cfg) : bool :=
   (zlen (c_sps c) <? 65536) && (zlen (c_pps c) <? 65536) && (zlen (c_vps c) <? 65536) &&
   (zlen (c_asc c) <? TWO24 - 2) && (zlen (c_date c) <? 65536) &&
   (if c_hevc c then (length (c_hvcc c) =? 21)%nat && hvcc_fixed_ok (c_hvcc c) else 4 <=? zlen (c_sps c)) &&
+  sets_known c &&
   bits_wf (c_fr c) && bits_wf (c_vdr c) && bits_wf (c_adr c) &&
   int_wf (c_width c) && int_wf (c_height c) && int_wf (c_srate c) && int_wf (c_ssize c).
 
